@@ -4,7 +4,7 @@ import os, subprocess
 VERIF = os.path.dirname(os.path.dirname(os.path.abspath(__file__)))
 HARNESS = os.path.join(VERIF, "harness")
 TARGET = os.path.join(VERIF, ".target")
-REPO = "/repo"
+REPO = os.environ.get("VERIF_REPO", "/repo")
 
 class BuildError(Exception):
     pass
